@@ -185,6 +185,7 @@ func read(in io.Reader, metadata *raft.SnapshotMeta, snap io.Writer) error {
 
 	// Look through the archive for the pieces we care about.
 	var shaBuffer bytes.Buffer
+	found := make(map[string]bool)
 	for {
 		hdr, err := archive.Next()
 		if err == io.EOF {
@@ -194,6 +195,7 @@ func read(in io.Reader, metadata *raft.SnapshotMeta, snap io.Writer) error {
 			return fmt.Errorf("failed reading snapshot: %v", err)
 		}
 
+		found[hdr.Name] = true
 		switch hdr.Name {
 		case "meta.json":
 			// Previously we used json.Decode to decode the archive stream. There are
@@ -230,6 +232,14 @@ func read(in io.Reader, metadata *raft.SnapshotMeta, snap io.Writer) error {
 	// Verify all the hashes.
 	if err := hl.DecodeAndVerify(&shaBuffer); err != nil {
 		return fmt.Errorf("failed checking integrity of snapshot: %v", err)
+	}
+
+	// The hash of an empty file matches a file that is not there at all, so
+	// also make sure the archive actually contained the files we hashed.
+	for _, file := range []string{"meta.json", "state.bin"} {
+		if !found[file] {
+			return fmt.Errorf("failed checking integrity of snapshot: file %q is not in the archive", file)
+		}
 	}
 
 	return nil
